@@ -126,7 +126,9 @@ EXC = {"ValueError": "ValueError", "TypeError": "TypeError", "AttributeError": "
        "KeyError": "KeyError", "IndexError": "IndexError",
        "DecodeError": "EDecode", "MissingRequiredAttribute": "EMissingRequired",
        "NotAllowedValue": "ENotAllowed", "TooManyValues": "ETooMany", "FormatError": "EFormat",
-       "MissingRequiredValue": "EMissingValue", "InvalidRequest": "EInvalidRequest"}
+       "MissingRequiredValue": "EMissingValue", "InvalidRequest": "EInvalidRequest",
+       "VerificationError": "EVerification", "SchemeError": "EScheme", "NotForMe": "ENotForMe",
+       "IssuerMismatch": "EIssuerMismatch", "EXPError": "EExp", "IATError": "EIat", "MessageException": "EMessage"}
 
 
 def coq_res(outcome, okf):
